@@ -195,7 +195,8 @@ def gen_machine_program(r: Rng, feat: Dict[str, bool], size: int) -> Dict:
                ("strobe", 2 if feat.get("kil_reads") else 0),
                ("romw", 3 if feat.get("rom_writes") else 0),
                ("cardrw", 4 if feat.get("card_rw") and not in_loop else 0),
-               ("xram", 5 if feat.get("xram") else 0)]
+               ("xram", 5 if feat.get("xram") else 0),
+               ("crit", 3 if feat.get("imr_writes") and feat.get("isr_writes") and depth == 0 and not in_loop else 0)]
         kind = r.weighted([p for p in pal if p[1] > 0])
         if kind == "nop":
             a.op("NOP")
@@ -274,6 +275,20 @@ def gen_machine_program(r: Rng, feat: Dict[str, bool], size: int) -> Dict:
             a.lmn("ST_A", addr, tag="ROM_W")
             if not in_loop:
                 a.lmn("LD_A", addr, tag="ROM_R")
+        elif kind == "crit":
+            # a critical section of a polling main program: interrupts off, time passes (requests pile up),
+            # one status bit is acknowledged by hand, interrupts on again
+            a.op("AND_IMR", 0x7F)
+            if feat.get("wait") and r.chance(1, 2):
+                a.op("MV_I", r.range(1, 14), 0)
+                a.op("WAIT")
+                a.op("NOP")
+                a.op("NOP")
+            else:
+                for _ in range(r.range(1, 4)):
+                    a.op("NOP")
+            a.op("AND_ISR", r.choice([0xFE, 0xFD, 0xFB, 0xF7, 0xF7]))
+            a.op("OR_IMR", r.choice([0x80, 0x80, 0x8F]))
         elif kind == "xram":
             # store into a RAM-expansion overlay (first / last bytes and just outside it), then read it back
             xs, xn = feat["xram"]
